@@ -410,7 +410,7 @@ class _SktimeForecaster(BaseForecaster):
         y_pred_int : pd.DataFrame
             Prediction intervals
         """
-
+        self.check_is_fitted()
         if return_pred_int:
             raise NotImplementedError()
         y = check_y(y)
@@ -621,6 +621,7 @@ class _BaseWindowForecaster(_SktimeForecaster):
         -------
         y_pred : pd.Series or pd.DataFrame
         """
+        self.check_is_fitted()
         if cv is not None:
             cv = check_cv(cv)
         else:
